@@ -3,7 +3,7 @@
 -/
 import SV.Misc.AdapterProofs
 import SV.Misc.AdapterMore
-import SV.GenProofs
+import SV.GenProofs.LRU
 namespace SV.Props.C17
 open SV SV.Adapter
 
